@@ -8,7 +8,7 @@
 using namespace libphysica;
 typedef long double ld;
 
-static const std::vector<double> ANS = {-1, 0, 1, 2, 3};   // choice 0 = default bowl, 1..5 = these
+static const std::vector<double> ANS = {-1, 0, 1e-24, 1, 2};	// choice 0 = default bowl, 1..5 = these (0 and 1e-24 differ by less than any absolute threshold a routine might use)
 
 static std::string g_current;
 static void silence()
@@ -73,7 +73,7 @@ struct Stats
 static void adversary_1d(unsigned long long& unit, Stats& st)
 {
 	int D = mc::thorough() ? 8 : 7;
-	mc::bound("adversary_1d", "Find_Minimum/Find_Maximum: all answer sequences over {bowl value,-1,0,1,2,3} at the first " + std::to_string(D) + " evaluations, afterwards the convex default bowl");
+	mc::bound("adversary_1d", "Find_Minimum/Find_Maximum: all answer sequences over {bowl value,-1,0,1e-24,1,2} at the first " + std::to_string(D) + " evaluations, afterwards the convex default bowl");
 	struct Cfg { double a, b, tol, centre; };
 	std::vector<Cfg> cfgs = {{0, 1, 3e-8, 7.3}, {1, 0, 1e-3, 7.3}, {-2, -1.999, 1e-6, -40.5}, {5, 6, 1e-10, 5.25}};
 	const int R = ANS.size() + 1;
@@ -141,7 +141,7 @@ typedef std::vector<double> Vec;
 static void adversary_nm(unsigned long long& unit, Stats& st)
 {
 	int D = mc::thorough() ? 8 : 7;
-	mc::bound("adversary_nm", "Minimization::minimize in 1 and 2 dimensions: all answer sequences over {bowl value,-1,0,1,2,3} at the first " + std::to_string(D) + " evaluations (initial simplex included)");
+	mc::bound("adversary_nm", "Minimization::minimize in 1 and 2 dimensions: all answer sequences over {bowl value,-1,0,1e-24,1,2} at the first " + std::to_string(D) + " evaluations (initial simplex included)");
 	struct Cfg { Vec start; double delta, ftol; Vec centre; };
 	std::vector<Cfg> cfgs = {{{0.5}, 1.0, 1e-6, {3.25}}, {{0, 0}, 1.0, 1e-6, {2.5, -1.75}}, {{1, 2}, 1e-2, 1e-3, {1.5, 2.25}}, {{-3}, 0.5, 1e-9, {-3.125}}};
 	const int R = ANS.size() + 1;
@@ -211,7 +211,7 @@ static void families_1d(unsigned long long& unit, Stats& st)
 	struct Obj { std::string name; std::function<ld(ld)> f; ld xmin; std::function<ld(ld)> width; };   // width(E): half-width of {f <= f*+E}
 	std::vector<Obj> objs;
 	for(double c : {0.0, 1.0, -250.0, 1e-3})
-		for(double s : {1e-6, 1.0, 1e6})
+		for(double s : {1e-24, 1e-6, 1.0, 1e6, 1e24})
 		{
 			objs.push_back({"quad_c" + mc::dec(c) + "_s" + mc::dec(s), [c, s](ld x) { return s * (x - c) * (x - c); }, c, [s](ld E) { return sqrtl(E / s); }});
 			objs.push_back({"quadoff_c" + mc::dec(c) + "_s" + mc::dec(s), [c, s](ld x) { return 3 + s * (x - c) * (x - c); }, c, [s](ld E) { return sqrtl(E / s); }});
